@@ -6,6 +6,7 @@ import (
 	"fmt"
 	"os"
 	"sort"
+	"strings"
 
 	"github.com/pkg/errors"
 	"github.com/spikeekips/mitum/base"
@@ -213,27 +214,132 @@ type Reader interface {
 // Fields ending in B are the ...Bytes twins: the reference of the object the body decodes to
 // (Unknown with a note when header/meta are not the ones stored).
 type Obs struct {
-	St   map[string]Ref `json:"st"`
-	StB  map[string]Ref `json:"stb"`
-	Bm   []Ref          `json:"bm"`
-	BmB  []Ref          `json:"bmb"`
-	Lbm  Ref            `json:"lbm"`
-	LbmB Ref            `json:"lbmb"`
-	Sp   []Ref          `json:"sp"`
-	SpB  []Ref          `json:"spb"`
-	Sph  []Ref          `json:"sph"`
-	Lsp  Ref            `json:"lsp"`
-	LspB Ref            `json:"lspb"`
-	Ilh  int            `json:"ilh"` // height returned by Center.LastSuffrageProofBytes
-	Pol  Ref            `json:"pol"`
-	Iso  [][]interface{} `json:"iso"`
-	Kno  [][]int        `json:"kno"`
-	Errs []string       `json:"errs,omitempty"`
+	St   map[string]Ref    `json:"st"`
+	StB  map[string]Ref    `json:"stb"`
+	Bm   []Ref             `json:"bm"`
+	BmB  []Ref             `json:"bmb"`
+	Lbm  Ref               `json:"lbm"`
+	LbmB Ref               `json:"lbmb"`
+	Sp   []Ref             `json:"sp"`
+	SpB  []Ref             `json:"spb"`
+	Sph  []Ref             `json:"sph"`
+	Lsp  Ref               `json:"lsp"`
+	LspB Ref               `json:"lspb"`
+	Ilh  int               `json:"ilh"` // height returned by Center.LastSuffrageProofBytes
+	Pol  Ref               `json:"pol"`
+	Iso  [][]interface{}   `json:"iso"`
+	Kno  [][]int           `json:"kno"`
+	Errs []string          `json:"errs,omitempty"`
 	Raw  map[string]string `json:"-"` // C20: raw bytes per read, "enchint|meta|body"
 }
 
 func rawKey(enchint string, meta, body []byte) string {
-	return fmt.Sprintf("%s|%x|%x|%v|%v", enchint, meta, body, meta == nil, body == nil)
+	return fmt.Sprintf("%s|%x|%x", enchint, meta, body)
+}
+
+// DiffObs compares two observations of the same database (before / after a reopen, or two
+// back-ends): object reads by reference, Bytes reads byte for byte (enchint, meta, body).
+func DiffObs(before, after *Obs) []ObsDiff {
+	var ds []ObsDiff
+
+	add := func(read, part, b, a string) {
+		if a != b {
+			ds = append(ds, ObsDiff{Read: read, Part: part, Before: b, After: a})
+		}
+	}
+	ref := func(r Ref) string {
+		if len(r) == 0 {
+			return "-"
+		}
+
+		return fmt.Sprint([]int(r))
+	}
+	refs := func(name string, b, a []Ref) {
+		for i := range b {
+			if i < len(a) {
+				add(fmt.Sprintf("%s(%d)", name, i), "object", ref(b[i]), ref(a[i]))
+			}
+		}
+	}
+
+	var keys []string
+	for k := range before.St {
+		keys = append(keys, k)
+	}
+
+	sort.Strings(keys)
+
+	for _, k := range keys {
+		add("State("+k+")", "object", ref(before.St[k]), ref(after.St[k]))
+		add("StateBytes("+k+")", "object", ref(before.StB[k]), ref(after.StB[k]))
+	}
+
+	refs("BlockMap", before.Bm, after.Bm)
+	refs("BlockMapBytes", before.BmB, after.BmB)
+	add("LastBlockMap", "object", ref(before.Lbm), ref(after.Lbm))
+	add("LastBlockMapBytes", "object", ref(before.LbmB), ref(after.LbmB))
+	refs("SuffrageProof", before.Sp, after.Sp)
+	refs("SuffrageProofBytes", before.SpB, after.SpB)
+	refs("SuffrageProofByBlockHeight", before.Sph, after.Sph)
+	add("LastSuffrageProof", "object", ref(before.Lsp), ref(after.Lsp))
+	add("LastSuffrageProofBytes", "object", ref(before.LspB), ref(after.LspB))
+	add("LastNetworkPolicy", "object", ref(before.Pol), ref(after.Pol))
+	add("ExistsInStateOperation", "set", fmt.Sprint(before.Iso), fmt.Sprint(after.Iso))
+	add("ExistsKnownOperation", "set", fmt.Sprint(before.Kno), fmt.Sprint(after.Kno))
+
+	var rk []string
+	for k := range before.Raw {
+		rk = append(rk, k)
+	}
+
+	for k := range after.Raw {
+		if _, ok := before.Raw[k]; !ok {
+			rk = append(rk, k)
+		}
+	}
+
+	sort.Strings(rk)
+
+	for _, k := range rk {
+		b, bok := before.Raw[k]
+		a, aok := after.Raw[k]
+
+		switch {
+		case bok != aok:
+			add(k, "found", fmt.Sprint(bok), fmt.Sprint(aok))
+		case a != b && strings.HasPrefix(b, "pool|"):
+			add(k, "pool", short(b[5:]), short(a[5:]))
+		case a != b:
+			bp, ap := strings.SplitN(b, "|", 3), strings.SplitN(a, "|", 3)
+			for i, part := range []string{"enchint", "meta", "body"} {
+				if bp[i] != ap[i] {
+					add(k, part, short(bp[i]), short(ap[i]))
+				}
+			}
+		}
+	}
+
+	return ds
+}
+
+func short(s string) string {
+	if s == "" {
+		return "<empty>"
+	}
+
+	if len(s) > 48 {
+		return fmt.Sprintf("%s...(%d)", s[:48], len(s))
+	}
+
+	return s
+}
+
+type ObsDiff struct {
+	Step   int    `json:"step"`
+	Read   string `json:"read"`
+	Part   string `json:"part"`
+	Before string `json:"before"`
+	After  string `json:"after"`
 }
 
 // Observe performs every read. keys: abstract keys; maxLen as in the spec.
@@ -277,7 +383,11 @@ func (d *DB) Observe(r Reader, keys []string, maxLen int, wantRaw bool) *Obs {
 			o.StB[k] = nil
 		default:
 			var bst base.State
-			if err := isaacdatabase.DecodeFrame(d.Env.Encs, eh, body, &bst); err != nil {
+			if err := isaacdatabase.DecodeFrame(d.Env.Encs, eh, body, &bst); err != nil || bst == nil {
+				if err == nil {
+					err = errors.Errorf("empty body")
+				}
+
 				fail("StateBytes("+k+") decode", err)
 				o.StB[k] = Unknown
 			} else {
@@ -456,6 +566,12 @@ func (d *DB) mapBytesRef(o *Obs, what, eh string, meta, body []byte, found bool,
 		return Unknown
 	}
 
+	if m == nil {
+		o.Errs = append(o.Errs, fmt.Sprintf("%s: empty body", what))
+
+		return Unknown
+	}
+
 	if eh != d.Env.Enc.Hint().String() || !bytes.Equal(meta, m.Manifest().Hash().Bytes()) {
 		o.Errs = append(o.Errs, fmt.Sprintf("%s: enchint/meta differ from what was stored", what))
 
@@ -482,6 +598,12 @@ func (d *DB) proofBytesRef(o *Obs, what, eh string, meta, body []byte, found boo
 	var p base.SuffrageProof
 	if err := isaacdatabase.DecodeFrame(d.Env.Encs, eh, body, &p); err != nil {
 		o.Errs = append(o.Errs, fmt.Sprintf("%s decode: %v", what, err))
+
+		return Unknown
+	}
+
+	if p == nil {
+		o.Errs = append(o.Errs, fmt.Sprintf("%s: empty body", what))
 
 		return Unknown
 	}
